@@ -33,6 +33,8 @@ def workload(tier, rng):
     for p in rs_pts:
         p2 = P(p.codec, p.k, p.r, m=p.m, length=p.len + rng.choice([0, 0, 1, 3]), align=rng.choice([0, 0, 1, 5]))
         execs.append(gen.encode_exec(p2, slots=rng.choice(["buf", "null", ["buf", "null"]])))
+        if p2.n <= 12 and rng.random() < 0.4:      # repair symbols asked for again after a source symbol was zeroed
+            execs.append(gen.encode_exec(p2, slots="buf", rebuild=(rng.randrange(p2.k), rng.sample(range(p2.k, p2.n), rng.randint(1, p2.r)))))
     # LDPC-Staircase: in-order encoding (repair i needs repair i-1), NULL and application slots
     grid = [(k, r, n1, seed) for k in ([1, 2, 3, 5, 8, 13, 21, 40] if q else list(range(1, 31)) + [40, 64, 100, 255])
             for r in sorted({max(3, k // 2), max(3, k), 2 * k + 3})
@@ -42,6 +44,9 @@ def workload(tier, rng):
         length = gen.need_len(3, k, 0) + rng.choice([0, 1, 8])
         p = P(3, k, r, N1=n1, seed=seed, length=length, align=rng.choice([0, 0, 3]))
         execs.append(gen.encode_exec(p, slots=rng.choice(["buf", "null", ["null", "buf"]])))
+        if k <= 21 and rng.random() < 0.4:
+            execs.append(gen.encode_exec(P(3, k, r, N1=n1, seed=seed, length=gen.need_len(3, k, 0)), slots="buf",
+                                         rebuild=(rng.randrange(k), list(range(k, k + r)))))
     # replicated identity payloads: the generator row must show up in every block of k positions, so the
     # whole symbol (all byte-kernel branches: 64/32-bit words, 16-byte unrolling, tails) carries non-zero data
     for _ in range(120 if q else 1500):
